@@ -166,8 +166,11 @@ def ensure_makefile():
     proj = ['-Q . FJ',
             '-arg -w -arg -notation-overridden,-deprecated-hint-without-locality,-deprecated-instance-without-locality']
     files = []
-    for d in ('Lib', 'Spec', 'Model', 'Proofs', 'Properties', 'Gen', 'Tie'):
+    for d in ('Lib', 'Spec', 'Model', 'Proofs', 'Properties', 'Tie'):
         files += sorted(str(p.relative_to(COQ)) for p in (COQ / d).rglob('*.v'))
+    # of the generated files only the regenerated source facts belong to the shared build (the Tie files need them);
+    # transient per-run files (stl images and instance theorems) are compiled by their check with coqc directly
+    files += sorted(str(p.relative_to(COQ)) for p in (COQ / 'Gen').glob('Facts_*.v'))
     text = '\n'.join(proj + files) + '\n'
     if write_if_changed(COQ / '_CoqProject', text) or not (COQ / 'Makefile').exists():
         subprocess.run(['coq_makefile', '-f', '_CoqProject', '-o', 'Makefile'], cwd=COQ, check=True,
